@@ -375,7 +375,7 @@ def py_paths(fn, mode, assume, stats, max_paths=4000):
     ex = pysym.Explorer(assume, max_paths=max_paths, stats=stats)
     for p in ex.explore(fn):
         facts = list(assume) + p.facts()
-        yield facts, (None if p.exc is not None else internal_er(mode, p.result)), p
+        yield facts, (None if (p.exc is not None or mode is None) else internal_er(mode, p.result)), p
     py_paths.truncated = ex.truncated
     py_paths.inconclusive = ex.inconclusive_paths
 
